@@ -95,6 +95,8 @@ def check_site(year, site):
 
     sel_status = 'status' in site.get('selectors', [])
     members = list(consts.keys()) if sel_status else [None]
+    if sel_status and site.get('statuses'):
+        members = [m for m in members if m in site['statuses']]       # a site that the official text states for some statuses only
     assume = []
     for a in site.get('assume', []):
         s, k = find_symbol(a[0])
